@@ -6,10 +6,7 @@ import (
 	"encoding/json"
 	"fmt"
 
-	"github.com/mithrandie/csvq/lib/query"
-
 	"verif/harness/internal/core"
-	"verif/harness/internal/gox"
 )
 
 // Extra family for C05: the data-changing statement is the body of a user function that a query evaluates once per
@@ -22,7 +19,7 @@ import (
 // single-worker run's in every schedule.
 func init() {
 	core.Extend("C05", "family parallel: INSERT / REPLACE / UPDATE / DELETE / INSERT-SELECT as the body of a user function evaluated per record by 3 workers (6 records), on a temporary table and on a file table; "+
-		"all goroutine schedules with at most 1 non-default decision; oracle: the table read in a fixed order equals the single-worker run's in every schedule", c05ParallelRun)
+		"all goroutine schedules with at most 1 non-default decision (thorough: 2); oracle: the table read in a fixed order equals the single-worker run's in every schedule", c05ParallelRun)
 }
 
 func c05ParallelScenarios() []goxScenario {
@@ -52,66 +49,8 @@ func c05ParallelScenarios() []goxScenario {
 	return out
 }
 
-type c05ParallelPayload struct {
-	Family   string      `json:"family"`
-	Scenario goxScenario `json:"scenario"`
-	Choices  []int       `json:"choices"`
-}
-
-func c05ParallelRun(c *core.Ctx) {
-	prev := query.GetGoroutineManager().MinimumRequiredPerCore
-	query.GetGoroutineManager().MinimumRequiredPerCore = 2
-	defer func() { query.GetGoroutineManager().MinimumRequiredPerCore = prev }()
-	dir := core.Scratch("c05parallel")
-	for i, sc := range c05ParallelScenarios() {
-		if !c.Mine(int64(i)) {
-			continue
-		}
-		want, _ := goxRunOnce(dir, sc, 1, false, nil)
-		e := &gox.Explorer{MaxPreempt: 1, MaxMapDev: 0, MaxSwitch: 1, Stop: c.Expired}
-		var got string
-		nontrivial := int64(0)
-		e.ExploreRunner(func(prefix []int) gox.Execution {
-			var ex gox.Execution
-			got, ex = goxRunOnce(dir, sc, sc.CPU, true, prefix)
-			return ex
-		}, func(choices []int, ex gox.Execution) {
-			if ex.Tasks > 1 {
-				nontrivial++
-			}
-			p := c05ParallelPayload{"parallel", sc, choices}
-			if ex.Deadlock {
-				c.Violate("parallel:"+sc.Name+":deadlock", fmt.Sprintf("scenario %s: every live task is blocked under choices %v", sc.Name, choices), p)
-			}
-			if got != want {
-				c.Violate("parallel:"+sc.Name+":table-differs-from-the-single-worker-run", fmt.Sprintf("scenario %s %q with %d workers, choices %v:\n--- single worker:\n%s--- this schedule:\n%s", sc.Name, sc.SQL, sc.CPU, choices, want, got), p)
-			}
-		})
-		c.EvalN(int64(e.Executions), nontrivial)
-		c.Observe("parallel_family", fmt.Sprintf("%s: %d schedules, %d tasks max", sc.Name, e.Executions, e.MaxTasks))
-		if e.Capped {
-			c.Incomplete("family parallel, scenario " + sc.Name + ": time budget reached before all schedules within the bound were run")
-		}
-		if e.Divergences > 0 {
-			c.Incomplete(fmt.Sprintf("family parallel, scenario %s: %d executions diverged from their choice vector", sc.Name, e.Divergences))
-		}
-	}
-}
+func c05ParallelRun(c *core.Ctx) { goxFamilyRun(c, "parallel", c05ParallelScenarios(), false) }
 
 func c05ParallelReplay(c *core.Ctx, payload json.RawMessage) bool {
-	var p c05ParallelPayload
-	if json.Unmarshal(payload, &p) != nil || p.Family != "parallel" {
-		return false
-	}
-	prev := query.GetGoroutineManager().MinimumRequiredPerCore
-	query.GetGoroutineManager().MinimumRequiredPerCore = 2
-	defer func() { query.GetGoroutineManager().MinimumRequiredPerCore = prev }()
-	dir := core.Scratch("c05parallel-replay")
-	want, _ := goxRunOnce(dir, p.Scenario, 1, false, nil)
-	got, ex := goxRunOnce(dir, p.Scenario, p.Scenario.CPU, true, p.Choices)
-	fmt.Printf("replaying family parallel, scenario %s: %d choice points, equal to the single-worker run: %v\n", p.Scenario.Name, len(ex.Points), got == want)
-	if got != want {
-		c.Violate("parallel:"+p.Scenario.Name+":table-differs-from-the-single-worker-run", fmt.Sprintf("--- single worker:\n%s--- replayed schedule:\n%s", want, got), p)
-	}
-	return true
+	return goxFamilyReplay(c, "parallel", false, payload)
 }
